@@ -40,6 +40,8 @@ def fz(v):
         return tuple(sorted(((k, fz(x)) for k, x in v.items()), key=repr))
     if isinstance(v, slice):
         return ('slice', fz(v.start), fz(v.stop), fz(v.step))
+    if isinstance(v, Inst):
+        return ('inst', v.cls.name, tuple(sorted(((k, fz(x)) for k, x in v.fields.items()), key=repr)))
     if isinstance(v, Poly):
         if v.is_const() and v.cval().denominator == 1:
             return int(v.cval())
@@ -108,6 +110,11 @@ class SymShape:
     def __iter__(self):
         raise Top(f"iteration over the shape of opaque array {self.s}")
 
+    def __radd__(self, o):
+        if isinstance(o, tuple):
+            return o + (Sym('shape_rest', self.s),)
+        return NotImplemented
+
 
 class AtProxy:
     def __init__(self, s, idx=None):
@@ -152,7 +159,10 @@ class _ATAt:
         return _ATAt(self.a, i)
 
     def set(self, v, **k):
-        raise Top(".at[].set on an algebraic tensor")
+        return term('at_set', self.a, self.idx, v)
+
+    def add(self, v, **k):
+        return term('at_add', self.a, self.idx, v)
 
 
 AT.at = property(lambda self: _ATAt(self))
@@ -591,6 +601,8 @@ def merge_cond(pred, a, b):
         return {k: merge_cond(pred, a[k], b[k]) for k in a}
     if isinstance(a, (tuple, list)) and isinstance(b, (tuple, list)) and len(a) == len(b):
         return type(a)(merge_cond(pred, x, y) for x, y in zip(a, b))
+    if isinstance(a, (bool, np.bool_)) and isinstance(b, (bool, np.bool_)):
+        return pred if a else pred.negate()          # cond(p, True, False) = p ; cond(p, False, True) = not p
     return Sym('cond', pred, fz(a), fz(b))
 
 
@@ -622,7 +634,12 @@ def lax_fori_loop(lo, hi, body, init):
     return Sym('fori_loop', lo_, hi_, fz(out), fz(init))
 
 
+WHILE_HOOK = [None]
+
+
 def lax_while_loop(cond_fun, body_fun, init):
+    if WHILE_HOOK[0] is not None:
+        return WHILE_HOOK[0](cond_fun, body_fun, init)
     raise Top("lax.while_loop (loops are analysed one iteration at a time by the property modules)")
 
 
@@ -842,13 +859,31 @@ def _top_k(x, k):
 
 
 def _value_and_grad(f, argnums=0, has_aux=False, **kw):
+    """value_and_grad(f)(*args) = (f(*args), grad): f is really called (abstractly) so that the structure of its value
+    (and auxiliary output) is available; the gradient is the opaque term grad(f, argnums, args)"""
     def g(*args):
-        fa = (fz(f) if not isinstance(f, OpaqueObj) else f._sym(),) + tuple(fz(a) for a in args)
-        an = fz(argnums)
+        fname = f._sym() if hasattr(f, '_sym') else fz(f)
+        grad = Sym('grad', fname, fz(argnums), tuple(fz(a) for a in args))
+        out = f(*args)
         if has_aux:
-            return (Sym('vg.value', an, *fa), Sym('vg.aux', an, *fa)), Sym('vg.grad', an, *fa)
-        return Sym('vg.value', an, *fa), Sym('vg.grad', an, *fa)
+            if not (isinstance(out, tuple) and len(out) == 2):
+                raise Finding("value_and_grad(has_aux=True) of a function that does not return a (value, aux) pair")
+            return out, grad
+        return out, grad
     return g
+
+
+def apply_updates_model(params, updates):
+    """optax.apply_updates keeps the pytree structure of params: leaf-wise apply_updates(leaf, updates[path])"""
+    def rec(x, path):
+        k = pytree.node_kind(x)
+        if k is None or isinstance(x, OpaqueNode):
+            return Sym('apply_updates', fz(x), Sym('proj', fz(updates), path))
+        if k == 'none':
+            return None
+        ch = pytree.children(x)
+        return pytree.rebuild(x, [rec(c, path + (key,)) for key, c in ch])
+    return rec(params, ())
 
 
 def _tree_map(f, tree, *rest, is_leaf=None):
@@ -1006,7 +1041,7 @@ def make_world_externals(world_ref):
              partition=lambda tree, spec: (term('partition.params', tree), term('partition.static', tree)),
              combine=lambda *trees: term('combine', *trees),
              filter_jit=_identity_decorator)
-    optax = NS("optax", apply_updates=lambda params, updates: term('apply_updates', params, updates),
+    optax = NS("optax", apply_updates=apply_updates_model,
                GradientTransformation=Subscriptable("GradientTransformation"), OptState=Subscriptable("OptState"))
     typing = NS("typing", TYPE_CHECKING=False, Callable=Subscriptable(), Dict=Subscriptable(), Union=Subscriptable(),
                 Literal=Subscriptable(), ClassVar=Subscriptable(), NamedTuple=Subscriptable(), Any=Subscriptable(),
